@@ -64,7 +64,7 @@ class _Base(Contract):
 # --------------------------------------------------------------------------- RefCounter
 class RefCounterRetain(_Base):
     qual = 'RefCounter.retain'
-    props = ['C04', 'C05']
+    props = ['C04', 'C05', 'C09', 'C16']
 
     def build(self, I):
         I.st = State()
@@ -103,7 +103,7 @@ class RefCounterRelease(RefCounterRetain):
 # --------------------------------------------------------------------------- _retain_refs / _release_refs
 class RetainRefs(_Base):
     qual = 'Stream._retain_refs'
-    props = ['C04', 'C05']
+    props = ['C04', 'C05', 'C09', 'C16']
     sign = +1
 
     def build(self, I):
@@ -157,7 +157,9 @@ class EmitBody(_Base):
     nothing more is released."""
     qual = 'Stream._emit'
     name = 'Stream._emit[metadata=list]'
-    props = ['C01', 'C03', 'C04', 'C05', 'C10', 'C16']
+    # the fan-out is on the path of every element of every pipeline: each property about what is delivered, when and with which
+    # references depends on it
+    props = ['C01', 'C02', 'C03', 'C04', 'C05', 'C08', 'C09', 'C10', 'C13', 'C14', 'C15', 'C16']
     md_none = False
     assumptions = ('OrderedWeakrefSet: len() and iteration agree and iterate live members in first-insertion order '
                    '(trusted; no garbage collection between len() and list())',
@@ -207,6 +209,11 @@ class EmitBody(_Base):
             """Contract of an arbitrary downstream's update(x, who, metadata)."""
             g = I.st.ghost
             pre = g['_pre'][1]
+            if z3.is_app_of(z3.simplify(g['calls'].t), z3.Z3_OP_SEQ_EMPTY):
+                # before anything downstream has run, the node remembers the element it is delivering
+                I.oblige('remembers_current_value_before_the_first_downstream_runs',
+                         I.eq(I.get_attr(pre['self'], 'current_value'), pre['x']))
+                I.st.obligations[-1].props = ['C01']
             I.oblige('child_gets_same_element', I.eq(args[0], pre['x']))
             I.st.obligations[-1].props = ['C01']
             I.oblige('child_told_who_emitted', I.eq(kwargs['who'], pre['self']))
@@ -237,6 +244,11 @@ class EmitBody(_Base):
                 ret = lt
                 val = I.st.new_list(lt, K_AW)
             g['rets'] = VSeq(z3.Concat(g['rets'].t, z3.Unit(ret)), K_AWS)
+            # re-entrancy: the downstream may (through a feedback edge) push another element through THIS node before it
+            # returns; the nested _emit overwrites the two attributes _emit writes.  Locals of this frame are not affected.
+            me = pre['self']
+            I.set_attr(me, 'current_value', VElem(z3.Const(sym.fresh_name('cv_after_child'), sym.Elem)))
+            I.set_attr(me, 'current_metadata', VSeq(z3.Const(sym.fresh_name('cm_after_child'), sym.SeqMdS), K_MDE))
             return val
         return {'len:OrderedWeakrefSet': s_len, 'list:OrderedWeakrefSet': s_list,
                 'Stream._retain_refs': refs(+1), 'Stream._release_refs': refs(-1), '*.update': child_update}
@@ -274,7 +286,6 @@ class EmitBody(_Base):
             Clause('C01.every_downstream_once_in_attachment_order', ['C01', 'C15'], text='calls == D'),
             Clause('C03.returns_flat_list_of_all_awaitables', ['C03'], text='list(result) == nonnull_of(flat_aw(rets))'),
             Clause('C05.own_holds_net_to_zero', ['C05', 'C04'], text='count_r == old(count_r) + child_eff'),
-            Clause('remembers_current_value', ['C01'], text='self.current_value == x'),
             Clause('C16.failed_downstream_is_never_released', ['C16', 'C04'], when='raise:DownstreamError',
                    text='count_r - child_eff - old(count_r) >= occ(md_in) and len(calls) <= len(D)',
                    note='the hold taken for the failing downstream (and for every later one) stays: the count cannot reach zero'),
